@@ -1,13 +1,17 @@
 pub mod c01;
 pub mod c02;
 pub mod c03;
+pub mod c04;
+pub mod c05;
 pub mod c06;
 pub mod c08;
 pub mod c09;
 pub mod c11;
+pub mod c15;
 pub mod c17;
 pub mod c18;
 pub mod common;
+pub mod streamdrv;
 
 use crate::runner::{Monitor, Tier};
 
@@ -16,10 +20,13 @@ pub fn get(id: &str, tier: Tier) -> Option<Monitor> {
         "C01" => Some(c01::monitor(tier)),
         "C02" => Some(c02::monitor(tier)),
         "C03" => Some(c03::monitor(tier)),
+        "C04" => Some(c04::monitor(tier)),
+        "C05" => Some(c05::monitor(tier)),
         "C06" => Some(c06::monitor(tier)),
         "C08" => Some(c08::monitor(tier)),
         "C09" => Some(c09::monitor(tier)),
         "C11" => Some(c11::monitor(tier)),
+        "C15" => Some(c15::monitor(tier)),
         "C17" => Some(c17::monitor(tier)),
         "C18" => Some(c18::monitor(tier)),
         _ => None,
